@@ -304,7 +304,8 @@ def gen_inf_hc(rng, k):
     on the same Hamiltonian built without explicit_plus_hc (same state space, same options): both runs must report <psi|H|psi>
     of their state and agree with each other and with the closed-form energy."""
     engine = ['vumps1', 'vumps2', 'two', 'single'][k % 4]
-    name = rng.choice(['tfi', 'xxz']) if engine != 'vumps1' else 'tfi'
+    # (the one-site engines on the gapped chain only: one-site iDMRG on the critical Heisenberg chain is far from converged after 30 sweeps)
+    name = rng.choice(['tfi', 'xxz']) if engine in ('vumps2', 'two') else 'tfi'
     L = rng.choice([2, 2, 3, 4]) if name == 'tfi' else rng.choice([2, 2, 4])
     if name == 'tfi':
         # (one-site engine: DensityMatrixMixer only without a Z_2 charge, see T13_charge_one_site_dm_mixer_refuted)
@@ -503,6 +504,8 @@ def main(ctx):
     # (new strata are drawn after all the others so that the cases of the older streams stay the same for a given seed)
     cases += [gen_chi_ramp(rng) for _ in range(ctx.pick(20, 200) * mult)]
     cases += [gen_inf_hc(rng, k) for k in range(ctx.pick(8, 48))]
+    if os.environ.get('VERIF_C13_ONLY_NEW'):
+        cases = [c for c in cases if c.get('stream') in ('dmrg-finite-chi-ramp', 'dmrg-infinite-plus-hc')]
     for c in common.corpus_cases('C13'):
         cases.append(c['case'])
     results = run_chunks(ctx, cases)
@@ -699,12 +702,15 @@ def main(ctx):
                 probs.append('infinite: E = %.10g, <H>/site = %.10g, exact %.10g' % (r['E'], r['E_mpo'], e_exact))
             if case.get('compare_without_hc'):
                 ref = r.get('ref') or {}
+                # both runs stop at the same finite accuracy (<= 30 sweeps); VUMPS follows the same path with both MPOs, the mixers of iDMRG
+                # are built from the MPO and differ
+                tol_pair = 1e-5 if case['engine'].startswith('vumps') else 1e-4
                 hist['inf_plus_hc_pairs'] = hist.get('inf_plus_hc_pairs', 0) + 1
                 if not r.get('hc'):
                     ctx.fail('correspondence', 'model built with explicit_plus_hc=True has H_MPO.explicit_plus_hc = False', {'stream': stream, 'case': case})
                 if ref.get('error'):
                     probs.append('the same run without explicit_plus_hc raised %s' % ref['error'])
-                elif abs(ref['E_mpo'] - r['E_mpo']) > 1e-5 or abs(ref['E'] - r['E']) > 1e-4:
+                elif abs(ref['E_mpo'] - r['E_mpo']) > tol_pair or abs(ref['E'] - r['E']) > 10 * tol_pair:
                     probs.append('infinite: explicit_plus_hc=True gives E = %.10g, <H>/site = %.10g; the same Hamiltonian without it E = %.10g, '
                                  '<H>/site = %.10g' % (r['E'], r['E_mpo'], ref['E'], ref['E_mpo']))
             if abs(r['E_bond'] - r['E_mpo']) > 1e-8:
